@@ -433,8 +433,14 @@ func (l *lexer) parsePostfix() (*SExpr, error) {
 			}
 			l.next()
 			c := &SExpr{Kind: "call", Name: name}
+			typeArg := map[string]bool{"istype": true, "astype": true, "isptr": true, "asptr": true, "implements": true, "cast": true}
 			if !l.isOp(")") {
 				for {
+					if typeArg[name] && len(c.Args) == 1 {
+						// second argument is a Go type expression
+						c.Args = append(c.Args, &SExpr{Kind: "ident", Name: l.parseTypeText()})
+						break
+					}
 					x, err := l.parseIff()
 					if err != nil {
 						return nil, err
@@ -513,6 +519,7 @@ type EvPat struct {
 	Bind []string   // binder names: recv -> (v, ok) ; call -> results
 	OK   string     // recv: "true"/"false"/"" (any)
 	Fn   string     // call: observed function name
+	Named map[string]*SExpr // go of a closure: captured variable name -> pattern (unlisted captures are not constrained)
 	Text string
 }
 
@@ -914,6 +921,27 @@ func parseEvPat(s string) (*EvPat, error) {
 		p.Chan = c
 		p.Args = []*SExpr{v}
 	case "call", "go", "defer":
+		if p.Kind == "go" && strings.HasSuffix(rest, "}") && strings.Contains(rest, "{") {
+			i := strings.Index(rest, "{")
+			p.Fn = strings.TrimSpace(rest[:i])
+			p.Named = map[string]*SExpr{}
+			for _, kv := range splitTop(rest[i+1:len(rest)-1], ',') {
+				kv = strings.TrimSpace(kv)
+				if kv == "" {
+					continue
+				}
+				j := strings.Index(kv, ":")
+				if j < 0 {
+					return nil, fmt.Errorf("go pattern: expected name: pattern in %q", s)
+				}
+				x, err := ParseSpecExpr(strings.TrimSpace(kv[j+1:]))
+				if err != nil {
+					return nil, err
+				}
+				p.Named[strings.TrimSpace(kv[:j])] = x
+			}
+			return p, nil
+		}
 		// function names may contain characters that are not part of the expression language ((*T).m$1)
 		i := strings.Index(rest, "(")
 		if i > 0 && strings.HasPrefix(rest, "(") {
